@@ -84,8 +84,8 @@ func init() {
 			}
 			return 1500
 		},
-		ChunkSize: 50,
-		Rule:      "PRNG-drawn episodes of exactly-once publishes (1-16 messages, 1-2 goroutines) under the fault script of C01, weighted towards lost acknowledgements, read failures and transient store errors so that each of PUBREC, PUBREL, PUBCOMP gets lost in either direction; the reference broker forwards a QoS 2 message once per identifier cycle and its delivery log is the end-to-end oracle. Non-trivial: at least one message saw a new connection between its PUBREL record and its completion; distinct by fault multiset, connections and messages.",
+		ChunkSize:   50,
+		Rule:        "PRNG-drawn episodes of exactly-once publishes (1-16 messages, 1-2 goroutines) under the fault script of C01, weighted towards lost acknowledgements, read failures and transient store errors so that each of PUBREC, PUBREL, PUBCOMP gets lost in either direction; the reference broker forwards a QoS 2 message once per identifier cycle and its delivery log is the end-to-end oracle. Non-trivial: at least one message saw a new connection between its PUBREL record and its completion; distinct by fault multiset, connections and messages.",
 		Assumptions: []string{"the broker forwards a QoS 2 PUBLISH on first receipt and again only after PUBREL ended the cycle (method A of the specification)", "see C01"},
 		Run: func(c *run.Ctx) {
 			if c.Case == 0 {
@@ -131,8 +131,8 @@ func init() {
 			}
 			return 1500
 		},
-		ChunkSize: 50,
-		Rule:      "PRNG-drawn episodes in two modes: sequential (one publisher, exact call order) and concurrent (2-8 publisher goroutines on both levels racing the read routine and reconnects, random yield/sleep at the submit, connect and write hook points, race detector on). Oracles on the decoded wire per level: first appearances in acceptance (Save) order, resend region = pending set in ascending order before anything new, PUBREL in PUBREC order, DUP iff an earlier complete write in the same process. Non-trivial: >= 2 messages in flight at a reconnect or >= 2 goroutines publishing; distinct by mode, fault multiset, connections, messages.",
+		ChunkSize:   50,
+		Rule:        "PRNG-drawn episodes in two modes: sequential (one publisher, exact call order) and concurrent (2-8 publisher goroutines on both levels racing the read routine and reconnects, random yield/sleep at the submit, connect and write hook points, race detector on). Oracles on the decoded wire per level: first appearances in acceptance (Save) order, resend region = pending set in ascending order before anything new, PUBREL in PUBREC order, DUP iff an earlier complete write in the same process. Non-trivial: >= 2 messages in flight at a reconnect or >= 2 goroutines publishing; distinct by mode, fault multiset, connections, messages.",
 		Assumptions: []string{"either DUP value is accepted after a partial earlier write and after a restart (documented)", "the order in which exchange channels close is not asserted: it cannot be observed soundly from outside", "see C01"},
 		Run: func(c *run.Ctx) {
 			conc := 1
